@@ -10,6 +10,7 @@ import (
 	"runtime"
 	"sort"
 
+	"github.com/youzan/ZanRedisDB/node"
 	"github.com/youzan/ZanRedisDB/raft"
 	pb "github.com/youzan/ZanRedisDB/raft/raftpb"
 
@@ -54,10 +55,15 @@ type replica struct {
 	st      *raft.MemoryStorage
 	learner bool // started as learner (join)
 
-	// durable model: what a restart gets back
-	dSnap pb.Snapshot
-	dHS   pb.HardState
-	dEnts []pb.Entry // contiguous; may start at or below dSnap index+1
+	// durable model: the records saved to the log, in order (wal.Save /
+	// SaveSnapshot) together with the snapshot files. wal.Save leaves its
+	// records in the process' write buffer unless raft.MustSync (or a snapshot
+	// marker) asks for a sync: a crash may lose the records after the last flush.
+	recs     []drec
+	nFlushed int
+	walState pb.HardState // wal.WAL.state: the previously saved hard state
+	promised bool         // the unflushed records hold a term, vote or entry (not only a commit index)
+	voteOnly bool
 
 	// volatile application state of this incarnation
 	cursor    uint64 // highest index handed out / covered by snapshot
@@ -97,6 +103,7 @@ type cfg struct {
 	dupPm       int
 	wTick, wDeliver, wPropose, wConf, wCrash, wRestart, wPart, wHeal, wCompact, wTransfer, wCampaign, wStall, wPoke int
 	subCrashPm  int
+	tailCrashPm int // extra crash probability while the log holds unflushed records
 	backPressPm int
 	template    int
 	lazyProcPm  int
@@ -116,6 +123,9 @@ type sim struct {
 	votes      map[[2]uint64]uint64         // (voter, term) -> candidate granted
 	applied    map[uint64]entID             // index -> first handed-out identity
 	committed  map[uint64]entID             // index -> identity reported committed
+	hot        *replica // directed continuation after a crash that lost a promise (run.go hotStep)
+	hotLeft    int
+	commitTerm map[uint64]uint64            // index -> term of the replica that first reported it committed (>= the term it was committed in)
 	maxCommit  uint64
 	confApplied int
 	faultsOn   bool
@@ -188,24 +198,54 @@ func (s *sim) startFresh(r *replica, peers []raft.Peer, learner bool) {
 }
 
 func (s *sim) restart(r *replica) {
-	// rebuild the storage object the way replayWAL does
-	st := raft.NewRealMemoryStorage()
-	if !raft.IsEmptySnap(r.dSnap) {
-		st.ApplySnapshot(r.dSnap)
-	}
-	st.SetHardState(r.dHS)
-	var ents []pb.Entry
-	for _, e := range r.dEnts {
-		if e.Index > r.dSnap.Metadata.Index {
-			ents = append(ents, e)
+	// rebuild the storage object the way startRaft/replayWAL do: the hard state
+	// is the newest one in the log, the snapshot the newest whose marker is
+	// valid (index <= that commit, wal.ValidSnapshotEntries), the entries what
+	// wal.ReadAll returns from that marker
+	var dHS pb.HardState
+	for i := range r.recs {
+		if r.recs[i].kind == dState {
+			dHS = r.recs[i].hs
 		}
 	}
+	var dSnap pb.Snapshot
+	for i := range r.recs {
+		if r.recs[i].kind == dSnapRec && r.recs[i].snap.Metadata.Index <= dHS.Commit && r.recs[i].snap.Metadata.Index >= dSnap.Metadata.Index {
+			dSnap = r.recs[i].snap
+		}
+	}
+	var ents []pb.Entry
+	for i := range r.recs {
+		if r.recs[i].kind != dEnt {
+			continue
+		}
+		e := r.recs[i].ent
+		if e.Index > dSnap.Metadata.Index {
+			up := e.Index - dSnap.Metadata.Index - 1
+			if up > uint64(len(ents)) {
+				s.c.Violate("C03", "restart-wal-gap", "", "replica %d restart: log replay from snapshot %d hits entry %d after %d entries (wal.ReadAll: index out of range)", r.id, dSnap.Metadata.Index, e.Index, len(ents))
+				return
+			}
+			ents = append(ents[:up], e)
+		}
+	}
+	st := raft.NewRealMemoryStorage()
+	if !raft.IsEmptySnap(dSnap) {
+		// replayWAL (real code): entries the snapshot replaced are dropped
+		n0 := len(ents)
+		ents = node.VerifEntriesAfterSnapshot(&dSnap, ents)
+		if len(ents) != n0 {
+			s.c.Probe("replaced_entries_dropped_at_restart")
+		}
+		st.ApplySnapshot(dSnap)
+	}
+	st.SetHardState(dHS)
 	st.Append(ents)
 	r.st = st
 	r.up = true
 	r.incarn++
-	r.cursor = r.dSnap.Metadata.Index
-	r.confState = r.dSnap.Metadata.ConfState
+	r.cursor = dSnap.Metadata.Index
+	r.confState = dSnap.Metadata.ConfState
 	r.selfLearn, r.selfVoter = false, false
 	for _, id := range r.confState.Learners {
 		if id == r.id {
@@ -217,12 +257,12 @@ func (s *sim) restart(r *replica) {
 			r.selfVoter = true
 		}
 	}
-	if raft.IsEmptySnap(r.dSnap) && r.learner {
+	if raft.IsEmptySnap(dSnap) && r.learner {
 		// a learner that joined and has no snapshot yet knows itself as learner
 		// only after replaying its log; production restarts it with the
 		// learner role configured, RestartNode ignores that, so do we.
 	}
-	r.curHS = r.dHS
+	r.curHS = dHS
 	r.state = raft.StateFollower
 	r.deferred = nil
 	ok := s.guard(r, "restart", func() { r.n = raft.RestartNode(s.config(r)) })
@@ -235,7 +275,7 @@ func (s *sim) restart(r *replica) {
 		}
 	}
 	r.pending = true
-	s.c.Log("restart", "r%d hs=%v snap=%d ents=%d", r.id, r.dHS, r.dSnap.Metadata.Index, len(ents))
+	s.c.Log("restart", "r%d hs=%v snap=%d ents=%d", r.id, dHS, dSnap.Metadata.Index, len(ents))
 }
 
 // tickOf delivers one tick, counting down the self-destruct of a removed replica.
@@ -268,48 +308,76 @@ func (s *sim) crash(r *replica, where string) {
 	}
 	s.c.Fault("crash_" + where)
 	s.c.Log("crash", "r%d at %s", r.id, where)
+	if r.nFlushed < len(r.recs) {
+		if s.t.Bool(700) {
+			s.c.Fault("lost_unflushed_wal_tail")
+			if r.promised {
+				s.c.Fault("lost_promise")
+				s.hot, s.hotLeft = r, 2+s.t.Choose(10)
+			}
+			s.c.Log("lostTail", "r%d loses %d buffered records", r.id, len(r.recs)-r.nFlushed)
+			r.recs = r.recs[:r.nFlushed]
+		} else {
+			r.nFlushed = len(r.recs)
+		}
+	}
+	r.walState = pb.HardState{} // ReadAll does not restore WAL.state
+	r.promised, r.voteOnly = false, false
+}
+
+type drecKind uint8
+
+const (
+	dEnt drecKind = iota
+	dState
+	dSnapRec
+)
+
+type drec struct {
+	kind drecKind
+	ent  pb.Entry
+	hs   pb.HardState
+	snap pb.Snapshot
+}
+
+// saveSnap: snapshot file + log marker, synced (SaveSnap / wal.SaveSnapshot)
+func (r *replica) saveSnap(sn pb.Snapshot) {
+	r.recs = append(r.recs, drec{kind: dSnapRec, snap: sn})
+	r.nFlushed = len(r.recs)
 }
 
 // ---- durable model -------------------------------------------------------
 
+// persist mirrors persistRaftState.
 func (r *replica) persist(rd *raft.Ready) {
 	if !raft.IsEmptySnap(rd.Snapshot) {
-		r.dSnap = rd.Snapshot
-		var keep []pb.Entry
-		for _, e := range r.dEnts {
-			if e.Index > rd.Snapshot.Metadata.Index {
-				keep = append(keep, e)
-			}
+		r.saveSnap(rd.Snapshot)
+	}
+	if raft.IsEmptyHardState(rd.HardState) && len(rd.Entries) == 0 {
+		return // wal.Save short cut
+	}
+	mustSync := raft.MustSync(rd.HardState, r.walState, len(rd.Entries))
+	if !raft.IsEmptyHardState(rd.HardState) && (rd.HardState.Vote != r.walState.Vote || rd.HardState.Term != r.walState.Term || len(rd.Entries) > 0) {
+		// what raft promises to others in the messages of this step
+		r.promised = true
+		if len(rd.Entries) == 0 && rd.HardState.Term == r.walState.Term {
+			r.voteOnly = true
 		}
-		// a WAL snapshot marker makes everything before it irrelevant; entries
-		// after it that predate the snapshot are dropped by replay only if the
-		// later Save overwrites them; keep the model simple and exact: wal.ReadAll
-		// returns entries with index > snapshot index that were saved, later
-		// saves overwrite by index.
-		r.dEnts = keep
 	}
 	for _, e := range rd.Entries {
 		ce := e
 		ce.Data = append([]byte(nil), e.Data...)
-		if len(r.dEnts) == 0 {
-			r.dEnts = append(r.dEnts, ce)
-			continue
-		}
-		first := r.dEnts[0].Index
-		if ce.Index < first {
-			r.dEnts = []pb.Entry{ce}
-			continue
-		}
-		off := ce.Index - first
-		if off > uint64(len(r.dEnts)) {
-			// gap (after snapshot): start over from here
-			r.dEnts = []pb.Entry{ce}
-			continue
-		}
-		r.dEnts = append(r.dEnts[:off], ce)
+		r.recs = append(r.recs, drec{kind: dEnt, ent: ce})
 	}
 	if !raft.IsEmptyHardState(rd.HardState) {
-		r.dHS = rd.HardState
+		r.recs = append(r.recs, drec{kind: dState, hs: rd.HardState})
+		r.walState = rd.HardState
+	}
+	if mustSync {
+		r.nFlushed = len(r.recs)
+	}
+	if r.nFlushed == len(r.recs) {
+		r.promised = false
 	}
 }
 
@@ -458,6 +526,10 @@ func (s *sim) handleReady(r *replica, rd *raft.Ready) {
 	msgs := processMessages(rd.Messages)
 	// node/raft.go: a Ready whose commit index covers its own unstable entries
 	// (single-voter leader) is persisted before anything is sent or applied
+	if r.voteOnly {
+		r.voteOnly = false
+		s.c.Probe("vote_only_hard_state_change")
+	}
 	persistFirst := s.cfg.prodOrder && raft.IsEmptySnap(rd.Snapshot) && shouldPersistFirst(rd)
 	if persistFirst {
 		s.c.Probe("persist_first")
@@ -485,6 +557,9 @@ func (s *sim) handleReady(r *replica, rd *raft.Ready) {
 		}
 	}
 	if !raft.IsEmptySnap(rd.Snapshot) {
+		// node/raft.go forces a WAL sync after a Ready with a snapshot was
+		// persisted (etcd issue 10219)
+		r.nFlushed = len(r.recs)
 		r.st.ApplySnapshot(rd.Snapshot)
 	}
 	r.st.Append(rd.Entries)
@@ -539,10 +614,23 @@ func processMessages(msgs []pb.Message) []pb.Message {
 }
 
 func (s *sim) subCrash(r *replica, where string) bool {
-	if !s.faultsOn || s.cfg.subCrashPm == 0 {
+	if !s.faultsOn {
 		return false
 	}
-	if s.t.Bool(s.cfg.subCrashPm) {
+	pm := s.cfg.subCrashPm
+	if where == "before_advance" && r.nFlushed < len(r.recs) {
+		// a crash is most interesting while something volatile is in flight
+		pm += s.cfg.tailCrashPm
+		if r.promised {
+			// ... most of all when it is something the messages just sent rely on
+			s.c.Probe("promise_sent_before_flush")
+			pm += 400
+		}
+	}
+	if pm == 0 {
+		return false
+	}
+	if s.t.Bool(pm) {
 		s.crash(r, where)
 		return true
 	}
@@ -582,6 +670,7 @@ func (s *sim) noteCommitted(r *replica, rd *raft.Ready) {
 			break
 		}
 		s.committed[i] = id
+		s.commitTerm[i] = rd.HardState.Term
 		lo = i
 	}
 	_ = lo
@@ -593,15 +682,24 @@ func (s *sim) noteCommitted(r *replica, rd *raft.Ready) {
 func (s *sim) checkLeaderHasCommitted(r *replica) {
 	fi, _ := r.st.FirstIndex()
 	li, _ := r.st.LastIndex()
-	if li < s.maxCommit {
-		s.v("C03", "leader-missing-committed", "replica %d became leader in term %d with last index %d < committed index %d", r.id, r.curHS.Term, li, s.maxCommit)
-		return
-	}
+	// leader completeness is a statement by term: the leader of term L holds what
+	// was committed in terms below L. A replica that wins an old term late (its
+	// votes were delayed) after a newer leader committed more is a legitimate
+	// stale leader; it cannot commit anything.
+	L := r.curHS.Term
 	n := 0
 	for i := s.maxCommit; i >= fi && i >= 1 && n < 400; i-- {
 		want, ok := s.committed[i]
 		if !ok {
 			continue
+		}
+		if s.commitTerm[i] >= L {
+			s.c.Probe("stale_term_leader")
+			continue
+		}
+		if i > li {
+			s.v("C03", "leader-missing-committed", "replica %d became leader in term %d with last index %d < index %d committed in a term <= %d", r.id, L, li, i, s.commitTerm[i])
+			return
 		}
 		n++
 		e, ok2 := s.entryAt(r, i)
